@@ -53,15 +53,21 @@ type oracle struct {
 	perK  map[string]int
 }
 
-func (or *oracle) fail(sig string, j *Job, mode, what, class string, a, b *Res, ta, tb string) {
-	key := sig + "/" + class + "/" + what
+func (or *oracle) fail(sig, kind string, j *Job, mode, what, class string, a, b *Res, ta, tb string) {
+	key := sig + "/" + kind + "/" + class + "/" + what
 	or.perK[key]++
-	or.o.Count("diff_" + strings.TrimPrefix(sig, "c08-") + "_" + class + "_" + strings.ReplaceAll(what, "+", "_"))
-	if or.perK[key] > 3 {
+	or.o.Count("diff_" + strings.TrimPrefix(sig, "c08-") + "_" + kind + "_" + class + "_" + strings.ReplaceAll(what, "+", "_"))
+	// keep few examples per kind of difference (hxlib keeps 20 failures in
+	// total); unclassified differences get more room and are emitted first
+	limit := 1
+	if class == "other" {
+		limit = 4
+	}
+	if or.perK[key] > limit {
 		return
 	}
 	d := map[string]any{
-		"program": j.Name, "family": j.Family, "mode": mode, "what": what, "class": class,
+		"program": j.Name, "family": j.Family, "kind": kind, "mode": mode, "what": what, "class": class,
 		"variant": j.Variant, "sizes": fmt.Sprint(j.Sizes),
 		"a": fmt.Sprintf("gates=%d circ=%s/%d ssa=%s init=%v err=%q", a.Gates, a.CircHash, a.CircLen, a.SSAHash, a.InitLabels, a.Err),
 		"b": fmt.Sprintf("gates=%d circ=%s/%d ssa=%s init=%v err=%q", b.Gates, b.CircHash, b.CircLen, b.SSAHash, b.InitLabels, b.Err),
@@ -531,7 +537,7 @@ func runOracle(cf *hxlib.CommonFlags, o *hxlib.Out) {
 
 	// first pass: one fresh compilation of every program; programs whose
 	// compilation exceeds the tier's budget are dropped (counted)
-	budget := int64(700)
+	budget := int64(500)
 	if !quick {
 		budget = 12000
 	}
@@ -603,13 +609,13 @@ func runOracle(cf *hxlib.CommonFlags, o *hxlib.Out) {
 		for i := 1; i < len(same); i++ {
 			o.Count("comparisons_same_instance")
 			if what, class := relation(o1, same[i]); class != "equal" {
-				or.fail(sig, j, fmt.Sprintf("same-instance: compilation 1 vs %d", i+1), what, class, o1, same[i], o1.ssa, same[i].ssa)
+				or.fail(sig, "recompile", j, fmt.Sprintf("same-instance: compilation 1 vs %d", i+1), what, class, o1, same[i], o1.ssa, same[i].ssa)
 			}
 		}
 		if len(same) >= 3 {
 			o.Count("comparisons_same_instance")
 			if what, class := relation(same[1], same[2]); class != "equal" {
-				or.fail(sig, j, "same-instance: compilation 2 vs 3", what, class, same[1], same[2], same[1].ssa, same[2].ssa)
+				or.fail(sig, "recompile", j, "same-instance: compilation 2 vs 3", what, class, same[1], same[2], same[1].ssa, same[2].ssa)
 			}
 		}
 		or.histOp(j, k)
@@ -630,7 +636,7 @@ func runOracle(cf *hxlib.CommonFlags, o *hxlib.Out) {
 			o.Count("compilations")
 			o.Count("comparisons_fresh_instance")
 			if what, class := relation(o1, r); class != "equal" {
-				or.fail(sig, j, fmt.Sprintf("fresh instance %d in the same process", i+1), what, class, o1, r, o1.ssa, r.ssa)
+				or.fail(sig, "fresh-instance", j, fmt.Sprintf("fresh instance %d in the same process", i+1), what, class, o1, r, o1.ssa, r.ssa)
 			}
 		}
 		// ops for the model
@@ -681,7 +687,7 @@ func runOracle(cf *hxlib.CommonFlags, o *hxlib.Out) {
 			o.Count("compilations")
 			o.Count("comparisons_history_chain")
 			if what, class := relation(first[i], r); class != "equal" {
-				or.fail("c08-same-instance", j, "history: compiled on a long-lived Compiler after other corpus programs",
+				or.fail("c08-same-instance", "history-chain", j, "history: compiled on a long-lived Compiler after other corpus programs",
 					what, class, first[i], r, first[i].ssa, r.ssa)
 			}
 		}
@@ -710,7 +716,7 @@ func runOracle(cf *hxlib.CommonFlags, o *hxlib.Out) {
 				if b, err := os.ReadFile(filepath.Join(work, fmt.Sprintf("child-%d", ci), fmt.Sprintf("%d.ssa", ji))); err == nil {
 					tb = string(b)
 				}
-				or.fail(sig, j, fmt.Sprintf("separate process %d", ci), what, class, first[ji], rs[ji], first[ji].ssa, tb)
+				or.fail(sig, "cross-process", j, fmt.Sprintf("separate process %d", ci), what, class, first[ji], rs[ji], first[ji].ssa, tb)
 			}
 		}
 	}
